@@ -243,6 +243,21 @@ CLAIMED = {
         technique="Lean 4 proof of the closed forms (symmetry, one-body limit, Hellmann-Feynman) + differential validation of the AD entry points (forward vs reverse vs finite difference)",
         note=TB + " The AD engine (jvp, vjp, checkpoint, custom_jvp wiring, lax.scan transposition) is outside the model: a theorem cannot exhibit its failures; they are searched for by finite differences.",
     ),
+    "C16": dict(
+        category="proof",
+        text=("Partial. Lean theorems for every input: the FCIDUMP header written by prep_afqmc is inverted by _prep_afqmc's nelec_sp to (n_a - n_f, n_b - n_f) "
+              "for every n_f <= n_b <= n_a (swapped for negative ms; the interface's guard 2 n_f < n_a + n_b is shown weaker); the triangular index of the "
+              "custom-integral unpacking is a bijection onto [0, N(N+1)/2) and the unpacked matrix is symmetric; QR phase fix: if basis^T S mo is orthogonal, "
+              "any Q R factorisation has R diagonal +-1 and Q diag(sign r_ii) returns the matrix itself (the written ROHF/UHF coefficients carry pyscf's MO "
+              "phases, the gauge of the UCCSD amplitudes); amplitude conversion closed forms and (anti)symmetries. Tied to the code exactly (header, nelec_sp, "
+              "unpacked vectors with identity basis, converted amplitudes for injected dyadic t1/t2 through the real prep_afqmc) and by the property on the "
+              "implementation for random small molecules: trial energy via _prep_afqmc + init_prop_data vs pyscf (RHF/ROHF +- frozen core, UHF, density "
+              "fitting, custom basis, Hubbard rings via custom integrals), exact ground state of the written Hamiltonian vs pyscf's integrals with the same "
+              "dense solver, CISD/UCISD mixed energy vs CCSD/UCCSD energies in randomly re-phased MO gauges, written coefficients vs basis^T S mo."),
+        design_ref="DESIGN.md §5/C16",
+        technique="Lean 4 proof of the bookkeeping / phase-fix / conversion logic + exact correspondence + differential validation against pyscf on random molecules",
+        note=TB + " SCF, integral evaluation, Cholesky numerics (C17 covers the loop), CC theory (mixed energy = CC energy) and FCI are not modelled: pyscf is the trusted reference.",
+    ),
     "C18": dict(
         category="proof",
         text=("Lean theorems: for every size, with A V = V diag(w), V V^T = 1 and F_ij = 1/(w_j - w_i) off the diagonal, the rule's dV = V (F o V^T A' V), "
